@@ -105,6 +105,30 @@ pub fn corpus(idx: usize, seed: u64, w: &mut dyn Write, thorough: bool) -> Optio
             g.battery_owner_exits();
             g.step(&x("bobby", vec![], MMsg::WP { id: 9 }));
             g.battery_drain();
+            // a fee-bearing proceeds bucket buys a listing that contains an NFT (seller-side royalty branch taken,
+            // first with an unregistered, then with a registered collection): the pending fee is deposited by that purchase
+            let c1 = g.h.sim.cw721_addrs()[1].clone();
+            for (round, base) in [20u64, 30].iter().enumerate() {
+                if round == 1 {
+                    g.step(&Op::R { sender: DEPLOYER.into(), msg: RMsg::Reg { nft: va(&c1), payout: va(PAYOUTS[0]), bps: 300 } });
+                }
+                let (l1, l2) = (*base, *base + 1);
+                g.step(&x("carol", natives(&[(3, "uosmo")]), MMsg::CL { id: l1, create: create(&[(1000, JUNO_DENOM), (1000, USDC_DENOM)]) }));
+                g.step(&x("carol", vec![], MMsg::FI { id: l1, seconds: 600 }));
+                g.step(&x("bobby", natives(&[(1000, JUNO_DENOM), (1000, USDC_DENOM)]), MMsg::CB { id: l1 }));
+                g.step(&x("bobby", vec![], MMsg::BL { listing_id: l1, bucket_id: l1 }));
+                let held = g.h.sim.buckets().into_iter().find(|((o, id), _)| o.as_str() == "carol" && *id == l1).map(|(_, b)| b.funds).expect("proceeds bucket");
+                let tid = g.h.sim.nft_owners(&c1).into_iter().find(|(_, o)| o == "alice").map(|(t, _)| t).unwrap();
+                g.step(&Op::T721 { coll: c1.clone(), sender: "alice".into(), token_id: tid, inner: Inner::CL { id: l2, create: Create { ask: gbal_to_raw(&held), whitelist: None } } });
+                g.step(&x("alice", natives(&[(2, "uosmo")]), MMsg::AL { id: l2 }));
+                g.step(&x("alice", vec![], MMsg::FI { id: l2, seconds: 600 }));
+                g.step(&x("carol", vec![], MMsg::BL { listing_id: l2, bucket_id: l1 }));
+                g.battery_faults();
+                g.step(&x("alice", vec![], MMsg::RB { id: l1 }));
+                g.step(&x("carol", vec![], MMsg::WP { id: l2 }));
+                g.step(&x("bobby", vec![], MMsg::WP { id: l1 }));
+            }
+            g.battery_drain();
             Some(g.stats)
         }
         1 => {
